@@ -26,7 +26,7 @@ ASSUMPTIONS = ['CachedMethods compatibility shim',
 ALPHABET = ['C', 'N', 'O', 'c', 'n', 'Cl', '[NH4+]', '[C@H]', '[O-]', '[13CH3]', '[Fe+2]', '=', '#', '/', '\\', '-', ':',
             '(', ')', '.', '1', '2', '%10', '>']
 CONFIG = {
-    'quick': {'shards': 16, 'budget_s': 150, 'maxlen': 4, 'n_random': 80000, 'n_corpus': 1200, 'n_corrupt': 25,
+    'quick': {'shards': 16, 'budget_s': 300, 'maxlen': 4, 'n_random': 80000, 'n_corpus': 1200, 'n_corrupt': 25,
               'exhaustive_subspaces': ['all strings of <= 4 tokens over the 24-token alphabet'],
               'floors': {'evaluations': 300000, 'distinct_nontrivial': 100000, 'exhaustive.strings': 300000,
                          'verdict.both-accept': 8000, 'verdict.both-reject': 100000, 'graph.compared': 8000,
